@@ -1,6 +1,7 @@
 """In-tree dict cache backend for the C16 render harness (registered through mako.cache.register_plugin)."""
 
 STORE = {}
+CALLS = []  # (key, arguments) of every get_or_create
 SCHED = None
 
 
@@ -25,6 +26,7 @@ def _make():
     class DictCache(CacheImpl):
         def get_or_create(self, key, creation_function, **kw):
             k = (self.cache.id, key)
+            CALLS.append((key, dict(kw)))
             _y("cache.check")
             if k in STORE:
                 return STORE[k]
